@@ -6,6 +6,7 @@ import props_observable
 import props_router
 import props_locale
 import props_path
+import props_file
 SPECS = {
     "C01": props_resource.C01,
     "C02": props_resource.C02,
@@ -21,7 +22,8 @@ SPECS = {
     "C13": props_router.C13,
     "C19": props_locale.C19,
     "C18": props_path.C18,
+    "C17": props_file.C17,
 }
 # specs that can be run (./check) but are not claimed in MANIFEST.json yet
-IN_PROGRESS = set()
+IN_PROGRESS = {"C17"}
 NOT_CLAIMED = {}
